@@ -81,8 +81,10 @@ def run(ctx):
     scs = regression() + scenarios_from(mc["emitted_file"])
     s, nlines = drive_and_judge(ctx, scs, 6 if ctx.quick else 12)
     ob = rider_observed(ctx)
+    from checks import fnrunner_rider
+    fr = fnrunner_rider.run(ctx, PID)
     ctx.cov.update(dict(
-        observed_rider=ob,
+        observed_rider=ob, fnrunner_rider=fr,
         states=mc["states"], transitions=mc["transitions"], traces_validated_against_impl=s["vectors"],
         samples=(s.get("samples") or [])[:3], model_cfg=cfg, vectors_emitted=mc["emitted"], vectors_replayed=s["vectors"],
         per_family=s["families"], antecedent_hits=s["hits"], branch_hits=s.get("branches", {}), events=nlines, drift=0,
@@ -104,6 +106,9 @@ def run(ctx):
 def replay(ctx, path):
     with open(path) as f:
         sc = json.load(f)
+    if sc.get("rider") == "fnrunner":
+        from checks import fnrunner_rider
+        return fnrunner_rider.replay(ctx, PID, path)
     if str(sc.get("id", "")).startswith(PID + "-pipe_"):      # a scenario of the observed-state rider
         from checks import xrcompose
         xrcompose.replay(ctx, PID, path)
